@@ -31,6 +31,15 @@ def parseSecsRest : List String → Nat → List (Spec.Pipe.Sec Float) → Optio
   | "U" :: hl :: hm :: rest, n + 1, acc => parseSecsRest rest n (Spec.Pipe.Sec.pump (Gen.fOfBits hl) (Gen.fOfBits hm) :: acc)
   | _, _, _ => none
 
+/-- sections of the abstract `update_slurries` model: `P <d>` (pipe with diameter code d) | `U` (pump, holding some other slurry before the call) -/
+def parsePSecs : List String → List Spec.Pipe.PSec → Option (List Spec.Pipe.PSec)
+  | [], acc => some acc.reverse
+  | "P" :: d :: rest, acc => match d.toNat? with
+    | some n => parsePSecs rest (Spec.Pipe.PSec.pipe n :: acc)
+    | none => none
+  | "U" :: rest, acc => parsePSecs rest (Spec.Pipe.PSec.pump { p := 0, dp := 0 } :: acc)
+  | _, _ => none
+
 def parseSecs (ts : List String) (n : Nat) (acc : List (Spec.Pipe.Sec Float)) : Option (List (Spec.Pipe.Sec Float)) :=
   match parseSecsRest ts n acc with
   | some (s, []) => some s
@@ -191,6 +200,18 @@ def dispatch (op : String) (a : Array String) : Option String :=
       let f := fun i => Gen.fOfBits a[i]!
       let (hm, hl, pl, pm) := Spec.Pipe.sysHead (α := Float) (f 0) (f 1) (f 2) (f 3) secs
       some (" ".intercalate ([hm, hl, pl, pm].map Gen.bitsOf))
+  | "spec.updslur" =>
+    -- spec.updslur <code of the pipeline slurry's diameter before the call> then the sections; answer: main.dp | d:p:dp of every per-diameter copy in
+    -- insertion order | p:dp of the slurry every pump holds afterwards (the pipeline slurry's parameter set is coded 1)
+    if a.size < 1 then none else
+    match (a[0]!).toNat?, parsePSecs (a.toList.drop 1) [] with
+    | some d0, some secs =>
+      let r := Spec.Pipe.updateSlurries { secs := secs, main := { p := 1, dp := d0 }, slurries := [] }
+      let pumps := r.secs.filterMap fun s => match s with
+        | .pump sl => some (toString sl.p ++ ":" ++ toString sl.dp)
+        | .pipe _ => none
+      some (" ".intercalate ([toString r.main.dp, "|"] ++ (r.slurries.map fun e => toString e.1 ++ ":" ++ toString e.2.p ++ ":" ++ toString e.2.dp) ++ ["|"] ++ pumps))
+    | _, _ => none
   | "spec.gradeline" =>
     -- spec.gradeline rhol <n> sections… then n heads (pump − system head of the prefix of length 1 … n)
     if a.size < 2 then none else
